@@ -34,6 +34,10 @@ def run(ctx):
     # stage 2: panics from the event callback and from the user's Hash / PartialEq while the
     # interned ingredient recycles slots (see notes/C22-intern.txt)
     intern_stage(ctx)
+    # stage 3: a body panics while it is inside a (nested) fixpoint iteration (cycle engine: implementation ==
+    # Cycle model, every later read == least fixpoint; checks/cyclepanic.py)
+    from checks import cyclepanic
+    cyclepanic.stage(ctx)
     ctx.write_evidence("proof")
 
 
@@ -116,6 +120,9 @@ def intern_stage(ctx):
 
 
 def replay(ctx, rp):
+    if rp.get("engine") == "cycle-panic":
+        from checks import cyclepanic
+        return cyclepanic.replay(ctx, rp)
     if rp.get("engine") == "intern":
         idf = build_intern()
         if "case" not in rp:
